@@ -2,6 +2,7 @@
 //! Code: mahf::state::common::BestIndividual::{new,update}, mahf::components::evaluation::BestIndividualUpdate::{init,execute}, mahf::population::BestIndividual::best_individual, mahf::State::{best_individual,best_objective_value}
 //! Code: mahf::components::archive::{ElitistArchive,ElitistArchiveUpdate,ElitistArchiveIntoPopulation}
 //! Out: the elitist-archive clauses are thorough-tier best effort: the archive can only be filled through its update component, whose sort_unstable_by_key then runs on a Vec whose length the engine cannot fold (quicksort/heapsort paths explored symbolically; no verdict in 10 min) — NOT decided in the quick tier; the run-level clause (for every shipped heuristic the reported best equals the minimum the objective function returned) — a statement about where each template places its update step, i.e. a whole-run property outside this technique; populations larger than 3, archive capacity above 3
+//! Reclimit: mahf::state::(registry::)?StateRegistry::<.*>::find(_mut)?::<.*>=2
 //! Assume: inductive one-step from an arbitrary memory content; archives are built by real update steps (their constructor is private): two-step histories of symbolic populations
 use mahf::components::archive::{ElitistArchive, ElitistArchiveIntoPopulation, ElitistArchiveUpdate};
 use mahf::components::evaluation::BestIndividualUpdate;
